@@ -394,7 +394,8 @@ def run(ctx: Any, prog: Program) -> None:
         raise AnalysisError('VAL_TYPE_TO_IND / ARRAY_OFFSET could not be folded')
     i2v_node = dmx.global_assign('IND_TO_VALTYPE')
     ok = isinstance(i2v_node, ast.DictComp) and 'VAL_TYPE_TO_IND.items()' in ast.unparse(i2v_node) and ast.unparse(i2v_node.key) == 'ind' and ast.unparse(i2v_node.value) == 'val_type'
-    ctx.check('C14.X1', ok and len(set(v2i.values())) == len(v2i), dmx, i2v_node, 'IND_TO_VALTYPE must be the inverse of the (injective) VAL_TYPE_TO_IND', func='<module>', text='IND_TO_VALTYPE inverts VAL_TYPE_TO_IND')
+    ctx.shape('C14.X1', ok, dmx, i2v_node, 'IND_TO_VALTYPE is the inverse comprehension over VAL_TYPE_TO_IND', func='<module>', text='IND_TO_VALTYPE inverts VAL_TYPE_TO_IND')
+    ctx.check('C14.X1', len(set(v2i.values())) == len(v2i), dmx, dmx.global_assign('VAL_TYPE_TO_IND'), 'two value types share a wire code', func='<module>', text='VAL_TYPE_TO_IND injective')
     i2v = {v: k for k, v in v2i.items()}
     # reader classification
     cls_if = [n for n in walk_no_nested(pb) if isinstance(n, ast.If) and isinstance(n.test, ast.Compare) and dotted(n.test.left) == 'attr_type_data' and dotted(n.test.comparators[0]) == 'ARRAY_OFFSET']
@@ -434,7 +435,7 @@ def run(ctx: Any, prog: Program) -> None:
         ctx.check('C14.X2', r == w_, dmx, eb, f'binary version {v}: reader uses string-table formats {r}, writer {w_}', func='Element.export_binary', text=f'string table formats v{v}')
     for fn, nm in ((pb, 'parse_bin'), (eb, 'export_binary')):
         gate = [n for n in ast.walk(fn) if isinstance(n, ast.If) and 'ValueType.TIME' in ast.unparse(n.test) and 'version < 3' in ast.unparse(n.test) and any(isinstance(s, ast.Raise) for s in n.body)]
-        ctx.check('C14.X2', len(gate) == 1, dmx, gate[0] if gate else fn, f'{nm} must reject TIME attributes before binary version 3', func=f'Element.{nm}', text='TIME rejected before v3')
+        ctx.shape('C14.X2', len(gate) == 1, dmx, gate[0] if gate else fn, f'{nm} must reject TIME attributes before binary version 3', func=f'Element.{nm}', text='TIME rejected before v3')
     # ---- X3 ------------------------------------------------------------------------------------------------
     for v in range(1, 6):
         for m in members:
@@ -487,7 +488,7 @@ def run(ctx: Any, prog: Program) -> None:
         h = dmx.func(helper)
         src = ast.unparse(h)
         ok = "ns['_struct_' + name] = shape" in src and src.count('shape.pack') == 1 and src.count('shape.unpack') == 1
-        ctx.check('C14.X4', ok, dmx, h, f'{helper} must register one Struct and derive both converters from it', func=helper, text='one struct for both directions')
+        ctx.shape('C14.X4', ok, dmx, h, f'{helper} must register one Struct and derive both converters from it', func=helper, text='one struct for both directions')
     for m in members:
         t = m.name.casefold()
         if m.name not in ('STRING', 'BINARY'):
@@ -673,13 +674,17 @@ def run(ctx: Any, prog: Program) -> None:
     # ---- X8 ------------------------------------------------------------------------------------------------
     fk, tk = em['from_kv1'], em['to_kv1']
     fsrc, tsrc = ast.unparse(fk), ast.unparse(tk)
-    for const in ('NAME_KV1_LEAF', 'NAME_KV1', 'NAME_KV1_ROOT'):
-        ok = re.search(r'\b' + const + r'\b', fsrc) is not None and re.search(r'self\.type == ' + const + r'\b', tsrc) is not None
-        ctx.check('C14.X8', ok, dmx, tk, f'{const} must be produced by from_kv1 and dispatched on by to_kv1', func='Element.to_kv1', text=f'{const} both ways')
+    produced = {a.id for c in ast.walk(fk) if isinstance(c, ast.Call) and dotted(c.func) == 'cls' for a in c.args[1:2] if isinstance(a, ast.Name) and a.id.startswith('NAME_KV1')}
+    dispatched = {n.comparators[0].id for n in ast.walk(tk) if isinstance(n, ast.Compare) and dotted(n.left) == 'self.type' and isinstance(n.comparators[0], ast.Name)}
+    if not produced or not dispatched:
+        ctx.shape('C14.X8', False, dmx, tk, 'KV1 element type constants not found', func='Element.to_kv1', text='KV1 type names both ways')
+    for const in sorted(produced | dispatched):
+        ctx.check('C14.X8', const in produced and const in dispatched, dmx, tk, f'{const} is ' + ('produced by from_kv1 but to_kv1 has no branch for it' if const in produced else 'dispatched on by to_kv1 but never produced by from_kv1'),
+                  func='Element.to_kv1', text=f'{const} both ways')
     vals = {fold.global_(c) for c in ('NAME_KV1_LEAF', 'NAME_KV1', 'NAME_KV1_ROOT')}
     ctx.check('C14.X8', len(vals) == 3, dmx, dmx.global_assign('NAME_KV1'), 'the three KV1 element type names must be distinct', func='<module>', text='type names distinct')
     ok = "elem['value'] = props.value" in fsrc and "self['value'].val_str" in tsrc
-    ctx.check('C14.X8', ok, dmx, tk, 'leaf value stored under and read from the `value` attribute', func='Element.to_kv1', text='leaf value key')
+    ctx.shape('C14.X8', ok, dmx, tk, 'leaf value stored under and read from the `value` attribute', func='Element.to_kv1', text='leaf value key')
     reserved = [n for n in ast.walk(fk) if isinstance(n, ast.Compare) and isinstance(n.ops[0], ast.In) and isinstance(n.comparators[0], ast.Set)]
     rset = {e.value for e in reserved[0].comparators[0].elts} if reserved else set()
     special = {n.comparators[0].value for n in ast.walk(tk) if isinstance(n, ast.Compare) and dotted(n.left) == 'attr.name' and isinstance(n.comparators[0], ast.Constant)}
@@ -694,7 +699,7 @@ def run(ctx: Any, prog: Program) -> None:
         ctx.check('C14.X8', t.left.attr == 'name', dmx, t, f'`{ast.unparse(t)}` tests the original spelling: Element attribute keys are case-insensitive, so a leaf spelt "Name" is inlined over the element\'s own name attribute',
                   func='Element.from_kv1', text=f'membership test on folded name: {ast.unparse(t.comparators[0])[:30]}')
     ok = "elem['subkeys'] = subkeys = Attribute.array('subkeys', ValueType.ELEMENT)" in fsrc and 'subkeys.iter_elem()' in tsrc
-    ctx.check('C14.X8', ok, dmx, fk, 'nested blocks travel in the `subkeys` element array', func='Element.from_kv1', text='subkeys array')
+    ctx.shape('C14.X8', ok, dmx, fk, 'nested blocks travel in the `subkeys` element array', func='Element.from_kv1', text='subkeys array')
 
 
 MUTANTS: List[Dict[str, Any]] = [
